@@ -88,6 +88,7 @@ func TestCheck(t *testing.T) {
 		checkC09(t, env, rep)
 	case "C01":
 		checkC01(t, env, rep)
+		c01Grants(t, env, rep)
 	default:
 		t.Fatalf("unknown property %s", prop)
 	}
